@@ -1672,11 +1672,13 @@ def _show(pat: Sequence[Any]) -> str:
     return " ".join(("#" if b else ".") if isinstance(b, bool) else str(b) for b in pat)
 
 
-def run(repo: Repo, rep: Report) -> None:
+def run(repo: Repo, rep: Report, only: Optional[List[str]] = None) -> None:
     rep.rule("PZ-X", "for the puzzles with compact published rules: on every tiny instance the answers the posted constraints admit "
                      "are exactly the grids that obey the rules (brute force over all answers; rules transcribed in pzx.py)")
     insts = instances(rep.tier)
-    jobs = [(repo.root, repo.overrides, i, rep.tier) for i in range(len(insts))]
+    jobs = [(repo.root, repo.overrides, i, rep.tier) for i in range(len(insts)) if only is None or insts[i][0] in only]
+    if only is not None:
+        insts = [t for t in insts if t[0] in only]
     with ProcessPoolExecutor(max_workers=16) as ex:
         results = list(ex.map(_job, jobs))
     per: Dict[str, List[Tuple[str, str, int]]] = {}
@@ -1694,6 +1696,7 @@ def run(repo: Repo, rep: Report) -> None:
         else:
             rep.ok("PZ-X", f"{fn}: admitted answers == rule-obeying grids on {len(rs)} instances ({sum(r[2] for r in rs)} answers decided)",
                    points=sum(r[2] for r in rs))
-    rep.floor("PZ-X", 10)
+    if only is None:
+        rep.floor("PZ-X", 10)
     rep.assume("PZ-X covers " + ", ".join(sorted(per)) + " on boards of at most 12 answer variables; the other bundled solvers' rules "
                "(and all larger boards) are compared with nothing")
